@@ -1,0 +1,15 @@
+//go:build verif
+
+package icmp
+
+// Contracts for the ICMP header parser (properties C02, C20), checked by /verif/govc.
+//
+//@ func Parse
+//@   check safety
+//@   ensures (result1 == nil) <==> len(data) >= 8
+//@   ensures result1 == nil ==> result0 != nil
+//@   modifies nothing
+//
+//@ func CreateICMPv4TypeCode
+//@   check safety
+//@   modifies nothing
